@@ -181,7 +181,8 @@ func planC08(w *World, spec RunSpec) {
 	w.drawFaultMix("err-before", "lost-response", "crash", "compaction", "duplicate")
 	w.Cfg.Faults["drift"] = true
 	w.Cfg.Ndist = 150 + s.Intn(600, "ndist")
-	w.Scenario = GenOD(w, ODProfile{MaxEdits: 5, Limits: true, NeverReady: !s.Chance(1, 4, "all-ready"), Delegation: s.Chance(1, 4, "delegation"), FinalDelete: true})
+	sliced := s.Chance(1, 3, "sliced")
+	w.Scenario = GenOD(w, ODProfile{MaxEdits: 5, Limits: true, NeverReady: !s.Chance(1, 4, "all-ready"), Delegation: s.Chance(1, 4, "delegation"), FinalDelete: true, Slices: sliced, SliceDrift: sliced && s.Bool("slice-drift")})
 	w.StartProcesses()
 	w.Disturb(w.Cfg.Ndist)
 	w.finish()
